@@ -26,6 +26,7 @@ func VH_C12_closest_sched() {
 	// any --threads value (0 = all processors) on 1..NCPU processors, under any explored schedule
 	threads := vChoice("threads", 4)
 	vNumCPU(1 + vChoice("ncpu", vParam("NCPU")))
+	vRaceDetect()
 	vSchedExplore(vParam("DEV"))
 	vAssert("C12.closest.output-independent-of-schedule", run(threads) == base)
 }
